@@ -110,6 +110,8 @@ def check_lifecycle(res, man, layer, final=True):
         if d["text"] is not None and d["text"] != text.get(s):
             res.fail(f"C08|sensor-text|{s.name}", f"[{layer}] status sensor shows {d['text']!r} in state {s.name}, pinned text is {text.get(s)!r}")
         if e == E.CLIENT_FACADE_IS_READY:
+            if d.get("block_blank"):
+                res.fail("C08|ready-without-status-block", f"[{layer}] facade-ready announced for a spa whose status block was never transferred (still all zero)")
             if s != S.CONNECTED or not d["facade"]:
                 res.fail("C08|ready-outside-connected", f"[{layer}] facade-ready delivered in {s.name}, facade={d['facade']}")
             seen_ready = True
